@@ -142,279 +142,112 @@ pub broadcast group ideal {
     ax_rv_add, ax_rv_sub, ax_rv_mul, ax_rv_div, ax_rv_neg, ax_rv_cmp, ax_rv_eq
 }
 
-// ---- prelude fragment: std_ext.rs ----
-// R5: assumed contracts on std items that vstd does not specify (each is listed in the evidence).
-#[verifier::external_trait_specification]
-pub trait ExAsRef<T: core::marker::PointeeSized>: core::marker::PointeeSized {
-    type ExternalTraitSpecificationFor: core::convert::AsRef<T>;
-    fn as_ref(&self) -> (r: &T)
-        ensures r == asref_view::<Self, T>(self);
+// ---- prelude fragment: rand_stub.rs ----
+// R5: the parts of rand / rand_distr that the extracted functions touch, with ASSUMED contracts
+// restating their documentation (external crates cannot be linked in single-file mode).
+pub trait Rng {
+    // the next uniform variate in [0,1) this generator will produce
+    spec fn next_f64(&self) -> f64;
+    fn gen(&mut self) -> (r: f64) ensures r == old(self).next_f64();
 }
-pub uninterp spec fn asref_view<S: core::marker::PointeeSized, T: core::marker::PointeeSized>(s: &S) -> &T;
-
-// ---- prelude fragment: infoset_traits.rs ----
-// Trait declarations of src/lib.rs restated with a ghost view and a contract on each method
-// (a trait method declaration has no body to extract; `expect` entries of the unit check on every
-// run that the real declarations still have exactly these signatures).
-pub trait ChanceInfoset {
-    spec fn probs_view(&self) -> Seq<f64>;
-    fn probs(&self) -> (r: &[f64])
-        ensures r@ == self.probs_view();
+pub trait Distribution<T> {
+    fn sample<R>(&self, rnd: &mut R) -> T where R: Rng + ?Sized;
 }
-pub trait PlayerInfoset {
-    spec fn num_actions_view(&self) -> usize;
-    spec fn prev_infoset_view(&self) -> Option<usize>;
-    fn num_actions(&self) -> (r: usize)
-        ensures r == self.num_actions_view();
-    fn prev_infoset(&self) -> (r: Option<usize>)
-        ensures r == self.prev_infoset_view();
-}
-
-// ---- extracted from src/lib.rs: enum PlayerNum ----
-#[derive(Copy, Clone)]
-pub enum PlayerNum {
-    /// The first player
-    One,
-    /// The second player
-    Two,
-}
-
-// PlayerNum::ind / ind_mut use slice patterns in a `match` (rejected by this Verus); they are kept
-// external with the two-case spec, and that spec is discharged against the real bodies by the
-// loop-free Kani harness `playernum_ind` (so it is cited, not assumed).
-impl PlayerNum {
+// rand_distr::WeightedAliasIndex<f64>: documented as sampling index i with probability
+// proportional to weights[i] (TRUSTED: statistical correctness is not decided here).
+#[verifier::external_body]
+#[verifier::reject_recursive_types(W)]
+pub struct WeightedAliasIndex<W> { _p: core::marker::PhantomData<W> }
+#[verifier::external_body]
+#[derive(Debug)]
+pub struct WeightedError { }
+#[verifier::external_body]
+pub struct ThreadRng { }
+#[verifier::external_body]
+pub fn thread_rng() -> ThreadRng { unimplemented!() }
+impl Rng for ThreadRng {
+    uninterp spec fn next_f64(&self) -> f64;
     #[verifier::external_body]
-    pub fn ind<'a, T>(&self, arr: &'a [T; 2]) -> (r: &'a T)
-        ensures *r == (match *self { PlayerNum::One => arr[0], PlayerNum::Two => arr[1] })
+    fn gen(&mut self) -> (r: f64) { unimplemented!() }
+}
+// the weights an alias table was built from
+pub uninterp spec fn alias_weights<W>(w: &WeightedAliasIndex<W>) -> Seq<W>;
+// ghost draw counter: how many times `sample` has been called on this table is not tracked by the
+// type; instead `sample`'s contract exposes the only facts callers rely on
+impl<W> WeightedAliasIndex<W> {
+    #[verifier::external_body]
+    pub fn new(weights: Vec<W>) -> (r: Result<Self, WeightedError>)
+        requires weights@.len() > 0,
+        ensures r is Ok, alias_weights(&r->Ok_0) == weights@,
     { unimplemented!() }
-
     #[verifier::external_body]
-    pub fn ind_mut<'a, T>(&self, arr: &'a mut [T; 2]) -> (r: &'a mut T)
-        ensures
-            *r == (match *self { PlayerNum::One => old(arr)[0], PlayerNum::Two => old(arr)[1] }),
-            match *self {
-                PlayerNum::One => final(arr)[0] == *final(r) && final(arr)[1] == old(arr)[1],
-                PlayerNum::Two => final(arr)[1] == *final(r) && final(arr)[0] == old(arr)[0],
-            },
+    pub fn sample(&self, rng: &mut ThreadRng) -> (r: usize)
+        ensures r < alias_weights(self).len(), r < usize::MAX,
     { unimplemented!() }
 }
 
-// ---- extracted from src/lib.rs: enum Node ----
-pub enum Node {
-    /// A terminal node, the game is over the payoff to player one
-    Terminal(f64),
-    /// A chance node, the game advances independent of player action
-    Chance(Chance),
-    /// a node in the tree where the player can choose between different actions
-    Player(Player),
+pub open spec fn cum(p: Seq<f64>, k: int) -> real decreases k {
+    if k <= 0 { 0real } else { cum(p, k - 1) + rv(p[k - 1]) }
 }
 
-// ---- extracted from src/lib.rs: struct Chance ----
-pub struct Chance {
-    pub outcomes: Box<[Node]>,
-    pub infoset: usize,
+// ---- extracted from src/solve/multinomial.rs: struct Multinomial ----
+pub struct Multinomial<'a> {
+    // We store all be the last, since that should sum to one
+    pub init_probs: &'a [f64],
 }
 
-// ---- extracted from src/lib.rs: struct Player ----
-pub struct Player {
-    pub num: PlayerNum,
-    pub infoset: usize,
-    pub actions: Box<[Node]>,
-}
-
-// children of a node, as a sequence (shared by the ev and val specifications)
-pub open spec fn kids_of(n: Node) -> Seq<Node> {
-    match n {
-        Node::Terminal(_) => Seq::empty(),
-        Node::Chance(ch) => ch.outcomes@,
-        Node::Player(pl) => pl.actions@,
-    }
-}
-
-pub proof fn lemma_dist(r: real, a: real, w: real, e: real)
-    ensures r * (a + w * e) == r * a + (w * r) * e
-{
-    assert(r * (a + w * e) == r * a + (w * r) * e) by(nonlinear_arith);
-}
-
-// ---------- specification of C01 (utility): expectation of a tree, from the property text ----------
-pub struct Ctx { pub chance: Seq<Seq<f64>>, pub s1: Seq<Seq<f64>>, pub s2: Seq<Seq<f64>> }
-
-pub open spec fn weights_of(n: Node, c: Ctx) -> Seq<f64> {
-    match n {
-        Node::Terminal(_) => Seq::empty(),
-        Node::Chance(ch) => c.chance[ch.infoset as int],
-        Node::Player(pl) => match pl.num { PlayerNum::One => c.s1[pl.infoset as int], PlayerNum::Two => c.s2[pl.infoset as int] },
-    }
-}
-// ev(n) = payoff at a terminal; sum_i w_i * ev(child_i) at chance (w = chance probabilities of the
-// node's infoset) and at player nodes (w = the acting player's strategy at the node's infoset)
-pub open spec fn ev(n: Node, c: Ctx) -> real
-    decreases n, 1int, 0int
-{
-    match n {
-        Node::Terminal(p) => rv(p),
-        _ => sum_kids(n, c, kids_of(n).len() as int),
-    }
-}
-pub open spec fn sum_kids(parent: Node, c: Ctx, k: int) -> real
-    decreases parent, 0int, k
-{
-    if k <= 0 || k > kids_of(parent).len() { 0real } else {
-        sum_kids(parent, c, k - 1) + rv(weights_of(parent, c)[k - 1]) * ev(kids_of(parent)[k - 1], c)
-    }
-}
-// what Game::from_root is ASSUMED to establish (C11 is not applicable) plus validity of the profile
-pub open spec fn wf_node(n: Node, c: Ctx) -> bool
-    decreases n
-{
-    match n {
-        Node::Terminal(_) => true,
-        Node::Chance(ch) => ch.infoset < c.chance.len() && weights_of(n, c).len() == kids_of(n).len()
-            && forall|i: int| 0 <= i < kids_of(n).len() ==> wf_node(#[trigger] kids_of(n)[i], c),
-        Node::Player(pl) => {
-            (match pl.num { PlayerNum::One => pl.infoset < c.s1.len(), PlayerNum::Two => pl.infoset < c.s2.len() })
-            && weights_of(n, c).len() == kids_of(n).len()
-            && (forall|i: int| 0 <= i < kids_of(n).len() ==> rv(#[trigger] weights_of(n, c)[i]) >= 0real)
-            && forall|i: int| 0 <= i < kids_of(n).len() ==> wf_node(#[trigger] kids_of(n)[i], c)
-        }
-    }
-}
-pub open spec fn qsum(q: Seq<(&Node, f64)>, c: Ctx) -> real
-    decreases q.len()
-{
-    if q.len() == 0 { 0real } else { qsum(q.drop_last(), c) + rv(q.last().1) * ev(*q.last().0, c) }
-}
-pub open spec fn ctx_of<C: ChanceInfoset, S: AsRef<[f64]>>(chance_info: &[C], strat_info: [&[S]; 2]) -> Ctx {
-    Ctx {
-        chance: Seq::new(chance_info@.len(), |i: int| chance_info@[i].probs_view()),
-        s1: Seq::new(strat_info[0]@.len(), |i: int| asref_view::<S, [f64]>(&strat_info[0]@[i])@),
-        s2: Seq::new(strat_info[1]@.len(), |i: int| asref_view::<S, [f64]>(&strat_info[1]@[i])@),
-    }
-}
-
-pub proof fn lemma_qsum_push(q: Seq<(&Node, f64)>, e: (&Node, f64), c: Ctx)
-    ensures qsum(q.push(e), c) == qsum(q, c) + rv(e.1) * ev(*e.0, c)
-{
-    assert(q.push(e).drop_last() =~= q);
-}
-
-// ---- extracted from src/regret.rs: fn expected ----
-#[verifier::exec_allows_no_decreases_clause]
-pub fn expected(
-    node: &Node,
-    chance_info: &[impl ChanceInfoset],
-    strat_info: [&[impl AsRef<[f64]>]; 2],
-) -> (res: f64) 
+// ---- extracted from src/solve/multinomial.rs: impl Multinomial ----
+impl<'a> Multinomial<'a> {
+pub fn new(probs: &'a [f64]) -> (r: Self) 
     requires
-        wf_node(*node, ctx_of(chance_info, strat_info)),
+        probs@.len() >= 1,
     ensures
-        rv(res) == ev(*node, ctx_of(chance_info, strat_info)), // @ob C01.V.expected.value
+        r.init_probs@ == probs@.take(probs@.len() - 1), // @ob C10.V.multinomial.new_drops_last
 {
-broadcast use fl; broadcast use ideal;
-proof { ax_obeys(); ax_rv_lits(); }
-let ghost c = ctx_of(chance_info, strat_info);
-let ghost root = *node;
-
-    let mut queue = vec![(node, 1.0)];
-    let mut expected = 0.0;
-    proof {
-    assert(queue@ =~= Seq::<(&Node, f64)>::empty().push((node, 1.0f64)));
-    lemma_qsum_push(Seq::<(&Node, f64)>::empty(), (node, 1.0f64), c);
-}
-while let Some((node, reach)) = queue.pop() 
-invariant
-    c == ctx_of(chance_info, strat_info),
-    forall|i: int| 0 <= i < queue@.len() ==> wf_node(*(#[trigger] queue@[i]).0, c),
-    rv(expected) + qsum(queue@, c) == ev(root, c), // @ob C01.V.expected.value
-ensures
-    queue@.len() == 0,
-{
-broadcast use fl; broadcast use ideal;
-proof { ax_obeys(); ax_rv_lits(); }
-
-        match node {
-            Node::Terminal(payoff) => {
-                expected = expected + ( reach * payoff);
-            }
-            Node::Chance(chance) => {
-                let probs = chance_info[chance.infoset].probs();
-                let ghost q0 = queue@;
-proof { assert(sum_kids(*node, c, 0) == 0real); }
-for (prob, next) in it: probs.iter().zip(chance.outcomes.iter()) 
-invariant
-    c == ctx_of(chance_info, strat_info),
-    wf_node(*node, c),
-    *node == Node::Chance(*chance),
-    probs@ == weights_of(*node, c),
-    probs@.len() == chance.outcomes@.len(),
-    0 <= it.index@ <= probs@.len(),
-    forall|i: int| 0 <= i < queue@.len() ==> wf_node(*(#[trigger] queue@[i]).0, c),
-    qsum(queue@, c) == qsum(q0, c) + rv(reach) * sum_kids(*node, c, it.index@), // @ob C01.V.expected.value
-{
-broadcast use fl; broadcast use ideal;
-proof { ax_obeys(); ax_rv_lits(); }
-let ghost k = it.index@;
-let ghost qb = queue@;
-proof {
-    assert(kids_of(*node)[k] == *next);
-    assert(sum_kids(*node, c, k + 1) == sum_kids(*node, c, k) + rv(probs@[k]) * ev(*next, c));
-}
-
-                    queue.push((next, prob * reach));
-                
-proof {
-    lemma_qsum_push(qb, (next, fmul(*prob, reach)), c);
-    lemma_dist(rv(reach), sum_kids(*node, c, k), rv(*prob), ev(*next, c));
-}
-}
-            }
-            Node::Player(player) => {
-                let probs = player.num.ind(&strat_info)[player.infoset].as_ref();
-                let ghost q0 = queue@;
-proof { assert(sum_kids(*node, c, 0) == 0real); }
-for (prob, next) in it: probs.iter().zip(player.actions.iter()) 
-invariant
-    c == ctx_of(chance_info, strat_info),
-    wf_node(*node, c),
-    *node == Node::Player(*player),
-    probs@ == weights_of(*node, c),
-    probs@.len() == player.actions@.len(),
-    0 <= it.index@ <= probs@.len(),
-    forall|i: int| 0 <= i < queue@.len() ==> wf_node(*(#[trigger] queue@[i]).0, c),
-    qsum(queue@, c) == qsum(q0, c) + rv(reach) * sum_kids(*node, c, it.index@), // @ob C01.V.expected.value
-{
-broadcast use fl; broadcast use ideal;
-proof { ax_obeys(); ax_rv_lits(); }
-let ghost k = it.index@;
-let ghost qb = queue@;
-proof {
-    assert(kids_of(*node)[k] == *next);
-    assert(sum_kids(*node, c, k + 1) == sum_kids(*node, c, k) + rv(probs@[k]) * ev(*next, c));
-}
-proof { assert(rv(weights_of(*node, c)[k]) >= 0real); }
-
-                    if prob > &0.0 {
-                        queue.push((next, prob * reach));
-                    }
-                
-proof {
-    let w = rv(*prob); let r = rv(reach); let e = ev(*next, c);
-    lemma_dist(r, sum_kids(*node, c, k), w, e);
-    if w > 0real {
-        lemma_qsum_push(qb, (next, fmul(*prob, reach)), c);
-    } else {
-        assert((w * r) * e == 0real) by(nonlinear_arith) requires w == 0real;
-        assert(w * e == 0real) by(nonlinear_arith) requires w == 0real;
-    }
-}
-}
-            }
+        Multinomial {
+            init_probs: &probs[..probs.len() - 1],
         }
     }
-proof { assert(queue@.len() == 0); assert(qsum(queue@, c) == 0real); }
+}
 
-    expected
+// ---- extracted from src/solve/multinomial.rs: impl Distribution<usize> for Multinomial<'_> ----
+impl Distribution<usize> for Multinomial<'_> {
+fn sample<R>(&self, rnd: &mut R) -> (res: usize)
+    where
+        R: Rng + ?Sized,
+    
+    ensures
+        res <= self.init_probs@.len(), // @ob C10.V.multinomial.index_in_range
+        // k is returned exactly when the variate lies in the k-th cumulative-probability interval:
+        forall|j: int| 0 < j <= res ==> cum(self.init_probs@, j) < rv(old(rnd).next_f64()), // @ob C10.V.multinomial.inverse_cdf
+        res < self.init_probs@.len() ==> rv(old(rnd).next_f64()) <= cum(self.init_probs@, res as int + 1), // @ob C10.V.multinomial.inverse_cdf
+{
+        let mut remaining: f64 = rnd.gen();
+        let mut res = 0;
+        let ghost u = remaining;
+for val in it: self.init_probs 
+invariant_except_break
+    res == it.index@,
+invariant
+    res <= self.init_probs@.len(), self.init_probs@.len() == self.init_probs.len(),
+    u == old(rnd).next_f64(),
+    rv(remaining) == rv(u) - cum(self.init_probs@, res as int), // @ob C10.V.multinomial.inverse_cdf
+    forall|j: int| 0 < j <= res ==> cum(self.init_probs@, j) < rv(u), // @ob C10.V.multinomial.inverse_cdf
+ensures
+    res < self.init_probs@.len() ==> rv(u) <= cum(self.init_probs@, res as int + 1), // @ob C10.V.multinomial.inverse_cdf
+{
+broadcast use fl; broadcast use ideal;
+proof { ax_obeys(); ax_rv_lits(); }
+
+            if val < &remaining {
+                remaining = remaining - ( val);
+                res = res + ( 1);
+            } else {
+                break;
+            }
+        }
+        res
+    }
 }
 
 
